@@ -35,7 +35,7 @@ chk("C03", "enum",
 
 chk("C10", "hist",
     "exhaustive enumeration of addressing histories (all assignments of <= k entries to the addressing slots, then two Recipients() calls) on the implementation, in lock-step with a reference model over (identity, presentation)",
-    "All assignments of at most 3 (quick) / 4 (thorough) entries drawn from 10 presentations of 3 identities and nil to to/cc/bto/bcc/audience (+actor, +Block object) are executed on a fresh value of each of the 13 types with Recipients() (and Block), and the returned list, the four lists afterwards and idempotence are compared with the reference de-duplication.",
+    "All assignments of at most 4 entries drawn from 6 (quick) / 10 (thorough) presentations of 3 identities and nil to to/cc/bto/bcc/audience (+actor, +Block object) are executed on a fresh value of each of the 13 types with Recipients() (and Block), and the returned list, the four lists afterwards and idempotence are compared with the reference de-duplication.",
     "Reading D5 (audience on the value is not judged); lists longer than the bound are outside.",
     "DESIGN.md §3 C10")
 chk("C13", "hist",
@@ -50,7 +50,7 @@ chk("C14", "enum",
     "DESIGN.md §3 C14")
 chk("C19", "hist",
     "explicit-state exploration of Set/Append/Add histories on the real NaturalLanguageValues in lock-step with a reference ordered pair list; complete pair matrix for Equals",
-    "All histories of depth <= 4 (quick) / 5 (thorough) over 18 operations from 4 start states, all observers after every step; all 6241 ordered pairs of lists without repeated tags for Equals.",
+    "All histories of depth <= 4 (quick) / 6 (thorough) over 18 operations from 4 start states, all observers after every step; all 6241 ordered pairs of lists without repeated tags for Equals.",
     "3 tags (incl. the nil tag) and 2 texts; for Set on a repeated tag only the stated clauses are demanded.",
     "DESIGN.md §3 C19")
 
@@ -129,6 +129,31 @@ chk("C12", "sched+enum+race",
     "Every schedule with <= 2 preemptions (3-thread scenarios: <= 1 quick, <= 2 thorough; S1-S3 <= 3 thorough) of 8 scenarios over the yield points of an instrumented copy of the library generated from the current tree; each execution compared with the sequential results and the deep snapshot of the shared values and all package-level variables; every read-only operation x every universe value with deep snapshots before/after and result stability; the same scenario bodies under -race.",
     "Yield points at function-entry/loop granularity of the library only (third-party code not instrumented); the race pass is a dynamic monitor, not exhaustive; scenario values are small so that the schedule space closes.",
     "DESIGN.md §3 C12")
+
+# axes added after the second and third round of independently produced changes (DESIGN.md §8.6)
+EXTRA = {
+ "C01": "Scale axis: boundary-length strings (a 2/3/4-byte rune, quote or LF at every offset B-4..B+1, B in 64..4096) in 11 string positions, lists of 17/33/65 members, integers above 2^53, 7-decimal floats, instants at/before the epoch; empty-but-non-nil neighbours; one identity in every pair of item properties; every decode is followed by two unrelated decodes before the comparison.",
+ "C02": "Also boundary-length strings in 11 string positions and empty-but-non-nil neighbours next to every property.",
+ "C03": "Same scale, empty-neighbour and shared-identity axes as C01.",
+ "C04": "Seeds include term+termMap together, long and short IRIs mixed with repeats, one identity in all addressing lists, lists of 17/33/65 entries.",
+ "C05": "Boundary-length strings, shared identities; the decoded value is looked at only after two unrelated decodes and re-examined at the end of the case (decoded-value stability).",
+ "C06": "Every token at every offset B-4..B+1 for B in 16..4096 (multi-byte/quote/backslash also at 8192 and 65536); JSON decodes are followed by two unrelated decodes before the comparison.",
+ "C08": "Dynamic containment (a view that aliases the value is never a larger struct) and ordered pairs of helpers on application-defined twin types of the 14 structs.",
+ "C09": "Lists of 8..130 members for reflexivity; long-list, tag-only and extra-entry property changes.",
+ "C10": "To-lists of 15..129 distinct addressees with one repeat (end / index 1 / cc / bcc); thorough also k <= 5 over 6 presentations.",
+ "C11": "Chains of depth 4..70 along every walked property; lists of 17/33/65 carriers with 40/70 private recipients and repeated identities.",
+ "C12": "Scenario S9 (texts >= 256 bytes); yield points also around every pooling/locking/atomic call; workers run with GOMAXPROCS=1 so that sync.Pool is deterministic.",
+ "C13": "Far states: every kind grown to 7..129 members in three ways, then every continuation of depth <= 2.",
+ "C14": "Query grid (every sequence of <= 4 parameters over three pairs), scale grid (paths ending 64/300/1100 bytes in, queries of 17/33 parameters), membership in lists of 2..65 members.",
+ "C15": "Owners with segments of 50/300/1100 bytes and 17/33 segments.",
+ "C16": "Addressing lists of 8..65 members; the same identities in every ordered pair of addressing lists.",
+ "C17": "Instants 1969, the epoch and 2300; every object struct (pointer and value) with all other instant properties set to a decoy.",
+ "C18": "Up to 5 further value pairs per property (objectified / permuted / shrunk items, tag-only and last-byte text changes, epoch instants); thorough adds property triples x 64 combinations.",
+ "C19": "Every history also with texts passed as shared slices (aliasing mode); far states of 7..130 distinct tags x continuations of depth <= 2; near-miss equality variants on 7..130-entry lists; thorough depth 6.",
+ "C20": "Two further positions: several times inside a 70-member list and inside the long lists of a collection.",
+}
+for pid, extra in EXTRA.items():
+    checks[pid]["level_claimed"]["text"] += " " + extra
 
 manifest = {
     "version": 1,
